@@ -190,7 +190,9 @@ LIST = [
     Sub(r"\b(\w+)(\.|->)(empty|size|pop_front)\(\)", lambda m: "slist_%s(%s%s)" % (m.group(3), "&" if m.group(2) == "." else "", m.group(1)), None),
     Call(r"\b(\w+)\.push_back", "slist_push_back(&{h1}, &{0})", None),
     Call(r"\b(\w+)\.swap", "slist_swap(&{h1}, &{0})", None),
+    Call(r"static_cast<queue_type\s*\*>\((\w+(?:\.|->)q_)\)->erase", "slist_erase((struct slist *) ({h1}), {0})", None),
     Call(r"\b(\w+)->erase", "slist_erase({h1}, {0})", None),
+    Sub(r"\b(\w+)\.(last|begin)\(\)", r"slist_\2_it(&\1)", None),
     Sub(r"\b(\w+)\.end\(\)", r"slist_end_it(&\1)", None),
     Call(r"\b(\w+)\.splice", "slist_splice(&{h1}, {0}, &{1})", None),
     Sub(r"\bqueue_type\s+(\w+)\s*;", r"struct slist \1; slist_init(&\1); VX_LIST_SCOPE(\1);", None),
